@@ -144,4 +144,15 @@ CLAIMED = {
             "payload and signature of the verifying tokens (about 2.4 x 10^5 mutants in the quick tier) expecting failure.",
             "Signature primitives trusted. Decision table: no trace direction.",
             "DESIGN.md §3 C01"),
+    "C08": ("TLA+ spec JwsProduce (encoder typestate machine + create_jws option table with verification attempts) model-checked "
+            "by TLC; every behaviour executed: produced tokens decoded by the library's own decoder and verified",
+            "model_checking",
+            "TLC explores every encoder behaviour (three encoders, 1..3 recipients, 7 payload classes, detached, charset, b64 per "
+            "recipient, unprotected header) predicting the refusing step, and the complete JwsSignatureOptions product for three "
+            "methods with 36 verification attempts each, checking that a token only verifies as its signer with its nonce inside "
+            "its scopes; the harness runs every behaviour with real Ed25519 keys: encoder steps, byte-wise payload / signing "
+            "input / header equality after decoding, verification under the right key and failure under another, header "
+            "contents per option, and the outcome of each of the 221 184 verify_jws attempts.",
+            "Ed25519 only; crypto primitive trusted.",
+            "DESIGN.md §3 C08"),
 }
